@@ -55,7 +55,15 @@ PROPS = {
         "assumptions": HIST_ASSUME,
     },
     "C02": {
-        "theorems": ["copy_completes_before_base_is_touched", "no_base_call_without_backup", "first_write_wins", "tracked_is_not_copied_again", "copy_records_nothing", "crashed_frozen", "originals_recoverable_at_every_crash_point_linkfree_partial"],
+        "theorems": ["copy_completes_before_base_is_touched", "no_base_call_without_backup", "first_write_wins", "tracked_is_not_copied_again", "copy_records_nothing", "crashed_frozen", "originals_recoverable_at_every_crash_point_linkfree_partial",
+                     "recoverable_of_inv", "file_recoverable_of_inv", "recoverable_of_invB",
+                     "recoverable_at_every_crash_point_in_operations_linkfree_partial",
+                     "crash_in_rollback_dichotomy_linkfree_partial",
+                     "recoverable_at_every_crash_point_in_rollback_linkfree_partial",
+                     "file_recoverable_at_every_crash_point_in_rollback_linkfree_partial",
+                     "recoverable_at_every_crash_point_in_rollback_healthy_linkfree_partial",
+                     "rollback_is_restore_then_cleanup", "restore_half_never_writes_backup", "cleanup_half_never_touches_base"],
+        "extra_modules": ["C02R"],
         "streams": [{"name": "hist", "quick": ["-n", "300"], "thorough": ["-n", "4000"]}],
         "assumptions": HIST_ASSUME,
     },
